@@ -268,6 +268,16 @@ func cwCase(c *Ctx, form string, q []byte, want []byte, meas []byte, oracle bool
 	if !oracle {
 		return
 	}
+	// the exactness clause is stated for bytes that have no protobuf reading (hypothesis of C16_wire_*_blob_exact:
+	// extract.Attestation tries its four protobuf decoders on the caller's bytes first, and a table or report whose
+	// bytes also happen to be a well-formed message of unknown fields IS that message — C16_wire_proto_reading_wins);
+	// such cases are compared with the model only
+	for _, m := range []proto.Message{&tpmpb.Attestation{}, &spb.Attestation{}, &spb.Report{}, &tpb.QuoteV4{}} {
+		if len(q) > 0 && proto.Unmarshal(q, m) == nil {
+			c.Count("att/exactness-oracle-not-applicable-protobuf-reading-exists")
+			return
+		}
+	}
 	wantTee := "sev:" + hx(meas) + ":" + hx(want)
 	if !okAtt || tee != wantTee {
 		c.Find("c16wire/extract.Attestation/entry-or-measurement-differs-from-quote/"+form,
